@@ -86,6 +86,8 @@ type sessCfg struct {
 	Deposits        bool
 	MaxRequestHosts int
 	NoManager       bool // pool.New(store, nil)
+	Yield           bool // wrap the store so that scheduled tasks park at every store call
+	NoSettle        bool // payment service without a settle handler (read-only mode)
 	WithdrawMin     *big.Int
 	Fee             string // "", "const", "prop"
 }
@@ -103,6 +105,12 @@ type settleCall struct {
 	Amount  *big.Int
 	New     *big.Int
 	OK      bool
+	Pre     *big.Int // the pre-fee total this settlement was computed from (same goroutine's last WithdrawFee input)
+}
+
+type feeEntry struct {
+	gid int64
+	val *big.Int
 }
 
 type agentConn struct {
@@ -130,6 +138,9 @@ type session struct {
 	model   *poolModel
 	closeFn func()
 	dir     string
+	raw     store.Store // the driver itself (s.st may be the yielding wrapper)
+	ys      *yieldStore
+	feeLog  []feeEntry // inputs of WithdrawFee (pre-fee totals), in call order
 
 	mu         sync.Mutex
 	settleLog  []settleCall
@@ -151,6 +162,11 @@ func newSession(t interface{ Fatalf(string, ...interface{}) }, cfg sessCfg, nAge
 		s.st = mustOpenBadger(t, s.dir)
 	default:
 		t.Fatalf("unknown driver %q", cfg.Driver)
+	}
+	s.raw = s.st
+	if cfg.Yield {
+		s.ys = &yieldStore{inner: s.st}
+		s.st = s.ys
 	}
 	s.build(t)
 	for i := 0; i < nAgents; i++ {
@@ -188,6 +204,9 @@ func (s *session) build(t interface{ Fatalf(string, ...interface{}) }) {
 		NonceStore: s.st, AccountStore: s.st, BalanceStore: s.bal,
 		Settle: func(account store.Account, amount *big.Int, newBalance *big.Int) (string, error) {
 			var err error
+			if s.ys != nil {
+				s.ys.sc.yield("Settle")
+			}
 			s.mu.Lock()
 			hook := s.settleHook
 			s.mu.Unlock()
@@ -195,7 +214,15 @@ func (s *session) build(t interface{ Fatalf(string, ...interface{}) }) {
 				err = hook(account, amount)
 			}
 			s.mu.Lock()
-			s.settleLog = append(s.settleLog, settleCall{string(account), new(big.Int).Set(amount), new(big.Int).Set(newBalance), err == nil})
+			var pre *big.Int
+			g := goid()
+			for i := len(s.feeLog) - 1; i >= 0; i-- {
+				if s.feeLog[i].gid == g {
+					pre = s.feeLog[i].val
+					break
+				}
+			}
+			s.settleLog = append(s.settleLog, settleCall{string(account), new(big.Int).Set(amount), new(big.Int).Set(newBalance), err == nil, pre})
 			s.mu.Unlock()
 			if err != nil {
 				return "", err
@@ -209,9 +236,29 @@ func (s *session) build(t interface{ Fatalf(string, ...interface{}) }) {
 	}
 	switch cfg.Fee {
 	case "const":
-		s.pay.WithdrawFee = func(a *big.Int) *big.Int { return new(big.Int).Sub(a, big.NewInt(25)) }
+		s.pay.WithdrawFee = func(a *big.Int) *big.Int {
+			s.mu.Lock()
+			s.feeLog = append(s.feeLog, feeEntry{goid(), new(big.Int).Set(a)})
+			s.mu.Unlock()
+			return new(big.Int).Sub(a, big.NewInt(25))
+		}
 	case "prop":
-		s.pay.WithdrawFee = func(a *big.Int) *big.Int { return new(big.Int).Div(new(big.Int).Mul(a, big.NewInt(99)), big.NewInt(100)) }
+		s.pay.WithdrawFee = func(a *big.Int) *big.Int {
+			s.mu.Lock()
+			s.feeLog = append(s.feeLog, feeEntry{goid(), new(big.Int).Set(a)})
+			s.mu.Unlock()
+			return new(big.Int).Div(new(big.Int).Mul(a, big.NewInt(99)), big.NewInt(100))
+		}
+	default:
+		s.pay.WithdrawFee = func(a *big.Int) *big.Int {
+			s.mu.Lock()
+			s.feeLog = append(s.feeLog, feeEntry{goid(), new(big.Int).Set(a)})
+			s.mu.Unlock()
+			return new(big.Int).Set(a)
+		}
+	}
+	if cfg.NoSettle {
+		s.pay.Settle = nil
 	}
 	if cfg.WithdrawMin != nil {
 		s.pay.WithdrawMin = new(big.Int).Set(cfg.WithdrawMin)
@@ -246,6 +293,11 @@ func (s *session) reopen(t interface{ Fatalf(string, ...interface{}) }) {
 		t.Fatalf("close store: %v", err)
 	}
 	s.st = mustOpenBadger(t, s.dir)
+	s.raw = s.st
+	if s.cfg.Yield {
+		s.ys = &yieldStore{inner: s.st}
+		s.st = s.ys
+	}
 	s.build(t)
 }
 
